@@ -123,7 +123,9 @@ func ConstFBTok(name string, fn, i int) uint64 {
 	for _, c := range name {
 		h = h*131 + uint64(c)
 	}
-	return tag(0x7F, Mix(h^(uint64(fn)*131+uint64(i)+0xCFB0)))
+	// (execution number 0 is never allocated: a function that has only this
+	// token to go by cannot mistake it for another execution's)
+	return tag(0, Mix(h^(uint64(fn)*131+uint64(i)+0xCFB0)))
 }
 
 func ElemTok(exec uint64, slot, i int) uint64 {
